@@ -163,6 +163,7 @@ PROFILES = {
     "generic": [310, 520, 730, 1100, 1300, 1700, 1900, 2300, 2900, 3100, 3700, 4100, 4300, 4700, 5300, 5900],
     "equal": [1000] * 16,
     "dominant": [900000, 12, 25, 40, 7, 19, 33, 51, 64, 8, 15, 22, 29, 36, 43, 57],
+    "balanced": [5000000, 1, 1, 1, 5000006, 2, 1, 3, 1, 2, 1, 1, 2, 1, 1, 1],
     "extreme": [1, 5000000, 3000000, 2, 2000000, 1, 3, 2, 1, 4, 2, 1, 3, 2, 1, 2],
 }
 
